@@ -108,7 +108,7 @@ def do_replay(path):
 
 
 def write_replay(prop, ident, payload):
-    d = os.path.join(HERE, 'replays', prop)
+    d = os.path.join(os.environ.get('VERIF_OUT') or HERE, 'replays', prop)   # VERIF_OUT: developer runs on a scratch checkout
     os.makedirs(d, exist_ok=True)
     h = hashlib.sha256(ident.encode()).hexdigest()[:10]
     safe = ''.join(ch if ch.isalnum() else '_' for ch in ident)[:80]
@@ -324,8 +324,9 @@ def run_check(prop, tier, seed, t0, a):
               assumptions=TRUSTED_BASE + [f'assumed callee contract: {x}' for x in sorted(assumed)] +
               (bounded or {}).get('assumptions', []),
               wall_s=round(wall, 2), violations=len(violations))
-    os.makedirs(os.path.join(HERE, 'evidence'), exist_ok=True)
-    with open(os.path.join(HERE, 'evidence', f'{prop}.json'), 'w') as f:
+    out_dir = os.environ.get('VERIF_OUT') or HERE
+    os.makedirs(os.path.join(out_dir, 'evidence'), exist_ok=True)
+    with open(os.path.join(out_dir, 'evidence', f'{prop}.json'), 'w') as f:
         json.dump(ev, f, indent=1, default=str)
 
     for ident, what in known_hits:
